@@ -12,6 +12,10 @@ pub mod c15;
 pub mod c06;
 pub mod c07;
 pub mod c12;
+#[cfg(feature = "full")]
+pub mod common;
+#[cfg(feature = "full")]
+pub mod c08full;
 
 pub type ReplayResult = Result<(bool, String), String>;
 
